@@ -212,6 +212,17 @@ def _run_chain(harness, init, hist, listeners, observe=False):
                 harness.execute(reg, q)
                 recs.append({"t": "call", "call": q, "out": "ok", "exc": "", "same": True,
                              "pre_rel": last_step, "ret": reg.last_ret, "info": reg.last_info})
+            if reg.held:         # connectivity queries from hierarchical pins held since earlier steps
+                pins = [json.loads(k) for k in sorted(reg.held) if json.loads(k) and json.loads(k)[-1][0] == "Q"][:10]
+                for hp in pins:
+                    for sel in ("OUTSIDE", "ALL"):
+                        q = {"op": "hq", "fn": "hwires", "root": {"t": "H", "h": hp}, "rec": False, "sel": sel}
+                        try:
+                            o2, e2 = harness.execute(reg, q)
+                        except harness.HarnessError:
+                            continue
+                        recs.append({"t": "call", "call": q, "out": o2, "exc": e2, "same": True,
+                                     "pre_rel": last_step, "ret": reg.last_ret or [], "info": reg.last_info or []})
             if reg.held:         # re-read every reference held from earlier queries
                 q = {"op": "hcheck", "held": True, "hs": [json.loads(k) for k in sorted(reg.held)][:60]}
                 harness.execute(reg, q)
@@ -244,7 +255,7 @@ def replay_slice(args):
             st["harness_errors"].extend(errs)
             others = []
             if listeners and gi % 4 == 0 and not chain:     # listener configurations: same behaviour under "", AB, BA
-                for cfg in ("", "AB", "BA"):
+                for cfg in ("", "AB", "BA", "C", "D", "S"):
                     try:
                         others.append(_run_group(harness, init, hist, cands, cfg)[1])
                     except harness.HarnessError:
@@ -269,6 +280,9 @@ def replay_slice(args):
                         if r2 is None or r2["out"] != rec["out"] or r2["same"] != rec["same"] or \
                                 r2.get("state") != rec.get("state"):
                             agree = False
+                    if harness.LISTENER_ERRORS:      # registering / removing a listener raised
+                        agree = False
+                        rec["listener_error"] = harness.LISTENER_ERRORS[0]
                     rec["agree"] = agree
                     st["transparency_compared"] += 1
                 n += 1
